@@ -125,7 +125,8 @@ def _traced_reads(ctx, col):
         mutable = set(loop.loop_carried()) | {k for k in spaths if not k.startswith("<")} | set(rpaths) | {"values", "policy", "iteration"}
         methods = ctx.ct.methods_of(cls)
         roots = {}
-        for _n, (owner, fn) in methods.items():
+        all_fns = [(k, f_) for k in ctx.ct.mro(cls) for f_ in k.methods.values()]  # overridden set-up methods run through super()
+        for owner, fn in all_fns:
             for a in ast.walk(fn):
                 if isinstance(a, ast.Assign) and isinstance(a.value, ast.Call) and ast.unparse(a.value.func) in TRACERS:
                     for x in ast.walk(a.value):
